@@ -51,7 +51,7 @@
 (* the case's grammar must be LR(1) (a conflict reached during evaluation  *)
 (* is reported and the case is discarded by the orchestrator).             *)
 (***************************************************************************)
-EXTENDS CanonLR, SemVal, Cfg, Prec, Macro, TLC, Json, IOUtils
+EXTENDS CanonLR, SemVal, Cfg, Prec, Macro, Gen, TLC, Json, IOUtils
 
 (* raw cases; those carrying cfg attributes mean their filtered grammar (Cfg.tla) *)
 Raw == JsonDeserialize(IOEnv.EVAL_CASES)
@@ -209,6 +209,15 @@ Emit == res # Running =>
                                        events |-> evs, res |-> res, la |-> la.t]))
 
 (* ---- properties of the specification itself ---- *)
+(* sanity net (Gen.tla): on cases marked `gen` the canonical parser accepts
+   exactly the derivable sentences and rejects no prefix of one *)
+SentOf == [k \in 1..NC |-> IF "gen" \in DOMAIN Raw[k] /\ LR1Of[k]
+                           THEN Sentences(Cases[k].G, Lhs(Cases[k].G, Cases[k].sp), Cases[k].n) ELSE {}]
+GenAgree == ("gen" \in DOMAIN Raw[c]) =>
+              /\ res.kind = "ok"  => inp \in SentOf[c]
+              /\ res.kind = "eof" => inp \notin SentOf[c]
+              /\ res.kind = "tok" => \A s \in SentOf[c] : ~IsPrefixOf(inp, s)
+
 (* the canonical parser never pulls past a token it rejects, and runs each
    action with the lookahead already pulled *)
 TypeOK == /\ pulled <= Cases[c].n
